@@ -196,6 +196,24 @@ def shard_include(shard):
                                    'expected_file': m.err_file.decode(), 'expected_lines': m.err_lines})
         del buf[:]
 
+    def variants_of(T):
+        return [
+            (b'include("a.conf")', {b'a.conf': T}),
+            (b'\ninclude("a.conf")\n\n', {b'a.conf': b'\n' + T + b'\n'}),
+            (b'i = 7\ninclude("a.conf")\n' + T, {b'a.conf': b's = q\n\n'}),
+            (b'include("a.conf")', {b'a.conf': b'\ninclude("b.conf")\ni = 7', b'b.conf': T}),
+            (b'include("a.conf") ' + T, {b'a.conf': b'include("b.conf")\n', b'b.conf': b'\n\n# c\n'}),
+            (b'sec {\ninclude("a.conf")\n}\n' + T, {b'a.conf': b'x = 3\n'}),
+            (b'sec { x = 2 }\nm { }\ninclude("a.conf")', {b'a.conf': T}),
+            (b'include("a.conf")\n' + T, {b'a.conf': b'sec { x = 2 }\nm { }\n'}),
+            (b'include("a.conf")\ninclude("b.conf")', {b'a.conf': b'sec {\n}\n', b'b.conf': T}),
+        ]
+    # vacuity guard: with an accepted text in the slot every arrangement is accepted by the model
+    for main, files in variants_of(b'i = 8'):
+        m = reftext.meaning(sch, flags, main, files=reftext.Files(dict(files)))
+        if m.verdict != ACCEPT:
+            raise RuntimeError('machinery: include arrangement %r is %s (%s) with an accepted text in the slot' % (main, m.verdict, m.why))
+
     for prefix in prefixes:
         for words, m0 in e1_words(sch, flags, alpha, N, prefix):
             if m0.verdict == UNSPEC and m0.lex.status != 'OK':
@@ -204,17 +222,7 @@ def shard_include(shard):
             # layouts: all blanks; one newline before token p
             layouts = [b' '.join(words)] + [b' '.join(words[:p]) + b'\n' + b' '.join(words[p:]) for p in range(1, k)]
             for T in layouts:
-                variants = [
-                    (b'include("a.conf")', {b'a.conf': T}),
-                    (b'\ninclude("a.conf")\n\n', {b'a.conf': b'\n' + T + b'\n'}),
-                    (b'i = 7\ninclude("a.conf")\n' + T, {b'a.conf': b's = q\n\n'}),
-                    (b'include("a.conf")', {b'a.conf': b'\ninclude("b.conf")\ni = 7', b'b.conf': T}),
-                    (b'include("a.conf") ' + T, {b'a.conf': b'include("b.conf")\n', b'b.conf': b'\n\n# c\n'}),
-                    (b'sec {\ninclude("a.conf")\n}\n' + T, {b'a.conf': b'x = 3\n'}),
-                    (b'sec { x = 2 }\nm { }\ninclude("a.conf")', {b'a.conf': T}),
-                    (b'include("a.conf")\n' + T, {b'a.conf': b'sec { x = 2 }\nm { }\n'}),
-                    (b'include("a.conf")\ninclude("b.conf")', {b'a.conf': b'sec {\n}\n', b'b.conf': T}),
-                ]
+                variants = variants_of(T)
                 for main, files in variants:
                     m = reftext.meaning(sch, flags, main, files=reftext.Files(dict(files)))
                     buf.append((main, files, m))
